@@ -37,6 +37,8 @@ type Solver struct {
 	ndefs     int
 	seq       int
 	timeoutMs int
+	intMode   bool // integer back end (intmode.go)
+	ranges    map[int]intRange
 	Stats     SolverStats
 	log       io.Writer // optional transcript
 }
@@ -50,6 +52,12 @@ func solverArgv(name string, timeoutMs int) []string {
 		return []string{"z3-new", "-in", fmt.Sprintf("-t:%d", timeoutMs)}
 	case "cvc5":
 		return []string{"cvc5", "--incremental", "--produce-models", fmt.Sprintf("--tlimit-per=%d", timeoutMs)}
+	case "z3-lia":
+		return []string{"z3", "-in", fmt.Sprintf("-t:%d", timeoutMs)}
+	case "z3-new-lia":
+		return []string{"z3-new", "-in", fmt.Sprintf("-t:%d", timeoutMs)}
+	case "cvc5-lia":
+		return []string{"cvc5", "--incremental", "--produce-models", fmt.Sprintf("--tlimit-per=%d", timeoutMs)}
 	case "cvc5-int":
 		return []string{"cvc5", "--incremental", "--produce-models", "--solve-bv-as-int=sum", fmt.Sprintf("--tlimit-per=%d", timeoutMs)}
 	}
@@ -57,7 +65,7 @@ func solverArgv(name string, timeoutMs int) []string {
 }
 
 func NewSolver(name string, timeoutMs int) *Solver {
-	s := &Solver{name: name, argv: solverArgv(name, timeoutMs), timeoutMs: timeoutMs}
+	s := &Solver{name: name, argv: solverArgv(name, timeoutMs), timeoutMs: timeoutMs, intMode: strings.HasSuffix(name, "-lia")}
 	s.start()
 	return s
 }
@@ -80,6 +88,7 @@ func (s *Solver) start() {
 	s.out = bufio.NewReaderSize(out, 1<<20)
 	s.defined = map[int]bool{}
 	s.declared = map[string]bool{}
+	s.ranges = map[int]intRange{}
 	s.ndefs = 0
 	if f := os.Getenv("GOSYM_SMTLOG"); f != "" && s.log == nil {
 		s.log, _ = os.Create(fmt.Sprintf("%s.%d", f, os.Getpid()*100+rand.Intn(100)))
@@ -123,7 +132,14 @@ func (s *Solver) define(t *Term, sb *strings.Builder) {
 	if t.op == OpVar {
 		if !s.declared[t.name] {
 			s.declared[t.name] = true
-			fmt.Fprintf(sb, "(declare-const |%s| %s)\n", t.name, sortStr(t.kind, t.w))
+			if s.intMode {
+				fmt.Fprintf(sb, "(declare-const |%s| %s)\n", t.name, intSort(t))
+				if t.kind == KBV {
+					fmt.Fprintf(sb, "(assert (and (<= 0 |%s|) (< |%s| %s)))\n", t.name, t.name, pow2(t.w))
+				}
+			} else {
+				fmt.Fprintf(sb, "(declare-const |%s| %s)\n", t.name, sortStr(t.kind, t.w))
+			}
 		}
 		return
 	}
@@ -132,6 +148,13 @@ func (s *Solver) define(t *Term, sb *strings.Builder) {
 	}
 	for _, a := range t.a {
 		s.define(a, sb)
+	}
+	if s.intMode {
+		body := s.intBody(t) // may panic intUnsupported: nothing recorded as defined
+		s.defined[t.id] = true
+		s.ndefs++
+		fmt.Fprintf(sb, "(define-fun t%d () %s %s)\n", t.id, intSort(t), body)
+		return
 	}
 	s.defined[t.id] = true
 	s.ndefs++
@@ -159,6 +182,24 @@ func collectVars(ts []*Term) []*Term {
 		rec(t)
 	}
 	return vars
+}
+
+// defineAllInt defines the assertions for the integer back end; a non-empty
+// result names what cannot be expressed.
+func (s *Solver) defineAllInt(asserts []*Term, sb *strings.Builder) (why string) {
+	defer func() {
+		if r := recover(); r != nil {
+			if u, ok := r.(intUnsupported); ok {
+				why = u.what
+				return
+			}
+			panic(r)
+		}
+	}()
+	for _, a := range asserts {
+		s.define(a, sb)
+	}
+	return ""
 }
 
 // readUntilMarker reads solver output up to the echo marker.
@@ -189,12 +230,30 @@ func (s *Solver) Check(asserts []*Term, wantModel bool) (string, map[string]uint
 	}
 	start := time.Now()
 	var sb strings.Builder
-	for _, a := range asserts {
-		s.define(a, &sb)
+	if s.intMode {
+		if why := s.defineAllInt(asserts, &sb); why != "" {
+			// definitions emitted so far stay valid; the query is not asked
+			s.send(sb.String())
+			s.Stats.Queries++
+			s.Stats.Unknown++
+			if s.Stats.Errors < 3 {
+				fmt.Fprintf(logw, "solver %s: not expressible over integers: %s\n", s.name, why)
+			}
+			s.Stats.Errors++
+			return "unknown", nil
+		}
+	} else {
+		for _, a := range asserts {
+			s.define(a, &sb)
+		}
 	}
 	sb.WriteString("(push 1)\n")
 	for _, a := range asserts {
-		fmt.Fprintf(&sb, "(assert %s)\n", a.ref())
+		if s.intMode {
+			fmt.Fprintf(&sb, "(assert %s)\n", intRef(a))
+		} else {
+			fmt.Fprintf(&sb, "(assert %s)\n", a.ref())
+		}
 	}
 	s.seq++
 	marker := fmt.Sprintf("done-%d", s.seq)
@@ -228,7 +287,7 @@ func (s *Solver) Check(asserts []*Term, wantModel bool) (string, map[string]uint
 			var q strings.Builder
 			q.WriteString("(get-value (")
 			for _, v := range vars {
-				q.WriteString(v.ref())
+				q.WriteString(v.ref()) // a variable's reference is its name in both back ends
 				q.WriteByte(' ')
 			}
 			s.seq++
@@ -241,6 +300,9 @@ func (s *Solver) Check(asserts []*Term, wantModel bool) (string, map[string]uint
 	}
 	s.send("(pop 1)\n")
 	d := time.Since(start)
+	if s.log != nil {
+		fmt.Fprintf(s.log, "; result=%s ms=%d\n", res, d.Milliseconds())
+	}
 	s.Stats.Queries++
 	s.Stats.Time += d
 	if ms := d.Milliseconds(); ms > s.Stats.MaxMs {
